@@ -115,12 +115,12 @@ macro_rules! runner {
             o.before = read(entry, 32);
             for k in 0..n {
                 o.log_marks.push(model::with(|m| m.log.len()));
-                crate::s1::IN_SUT.with(|f| f.set(true));
+                crate::sut::IN_SUT.with(|f| f.set(true));
                 let r = std::panic::catch_unwind(std::panic::AssertUnwindSafe(|| match c.boolean {
                     Some(v) if k == 0 => <P as PatchTrait>::replace_function_return_boolean(mk(c.target), v),
                     _ => <P as PatchTrait>::replace_function_with_other_function(mk(c.target), mk(c.fake.wrapping_add(16 * k as u64) | (c.fake & 1))),
                 }));
-                crate::s1::IN_SUT.with(|f| f.set(false));
+                crate::sut::IN_SUT.with(|f| f.set(false));
                 match r {
                     Ok(g) => {
                         guards.push(g);
@@ -128,7 +128,7 @@ macro_rules! runner {
                     }
                     Err(_) => {
                         o.installed.push(false);
-                        o.panics.push(crate::s1::last_panic());
+                        o.panics.push(crate::sut::last_panic());
                     }
                 }
                 o.after_install.push(read(entry, 32));
@@ -137,15 +137,15 @@ macro_rules! runner {
             }
             o.log_marks.push(model::with(|m| m.log.len()));
             // the injector restores newest first
-            crate::s1::IN_SUT.with(|f| f.set(true));
+            crate::sut::IN_SUT.with(|f| f.set(true));
             let r = std::panic::catch_unwind(std::panic::AssertUnwindSafe(move || {
                 while let Some(g) = guards.pop() {
                     drop(g);
                 }
             }));
-            crate::s1::IN_SUT.with(|f| f.set(false));
+            crate::sut::IN_SUT.with(|f| f.set(false));
             if r.is_err() {
-                o.panics.push(format!("drop: {}", crate::s1::last_panic()));
+                o.panics.push(format!("drop: {}", crate::sut::last_panic()));
             }
             o.after_drop = read(entry, 32);
             model::with(|m| {
@@ -407,7 +407,7 @@ pub fn cmd(prop: &str) -> i32 {
     let rule = "S2: real common.rs + arch patchers on the host against model-backed libc (real low memory, generated layout): (target incl. below 128 MiB and page-straddling offsets, occupancy {empty, full, one free page at -R-1..R+1 pages incl. the extremes, few free, first hints occupied}, occupied-hint behaviour {far, fail, near}, fake, function/boolean, install once or twice) ; oracle: success => entry decodes into the mapping kept (finite reach of AArch64 B), exactly the kept mappings outstanding, pages written were mprotect'ed writable; panic => target untouched, nothing new left mapped; after dropping newest-first the bytes are original and nothing is mapped; every changed byte was flushed with its final content; non-trivial = a search beyond the first hint, a clipped window, an extreme free page or a repeated install; distinct by case";
     let mut rec = Recorder::new(prop, "s2", rule);
     rec.assumptions.push("simlibc model of mmap/munmap/mprotect (hint rounded down as calibrated natively; occupied hint -> far / fail / near); `libc` renamed to the model crate, common.rs itself unmodified".into());
-    crate::s1::quiet_panics();
+    crate::sut::quiet_panics();
     // enumerated extremes first: page-aligned and unaligned targets x every extreme free page
     'e: for variant in variants.iter().copied().collect::<std::collections::BTreeSet<_>>() {
         for target in [0x2000_0000u64, 0x2000_0FFC, 0x2000_0804, 0x0400_0000] {
@@ -455,7 +455,7 @@ impl Ord for Variant {
 }
 
 pub fn replay(rec: &mut Recorder, _prop: &str, case: &Value) -> Result<(), String> {
-    crate::s1::quiet_panics();
+    crate::sut::quiet_panics();
     let c: S2Case = serde_json::from_value(case["S2Case"].clone()).map_err(|e| format!("bad S2Case: {e}"))?;
     check(rec, &c)
 }
